@@ -1,9 +1,256 @@
 package main
 
-import "verifharness/lib"
+import (
+	"fmt"
+	"sort"
+	"strings"
+
+	"verifharness/lib"
+)
+
+// M: a case as a Gallina term of type CorrC15.ccase — the world (what filepath.Walk listed per loader root,
+// content classes, loader configuration, what the parent loader binds), the operations, and the observed
+// outcome + read list per operation.
 
 func newCasesFile() *lib.CasesFile {
-	return &lib.CasesFile{Imports: []string{"Model.Base"}, Typ: "nat", Obligations: map[string]string{}}
+	return &lib.CasesFile{Imports: []string{"Model.Base", "Model.FileLoader", "Corr.CorrC15"}, Typ: "ccase",
+		Obligations: map[string]string{"fileloader": "c15_mismatches cases"}}
 }
 
-func gallinaCase(cs *Case, cr *CaseResult) string { return "0%nat" }
+// modelMods: the modules that have a file-based loader, in the order in which the top loader holds them;
+// returns the indices into cs.Mods.
+func modelMods(cs *Case, cr *CaseResult) []int {
+	var idx []int
+	has := func(i int) bool { return i < len(cr.Loaders) && cr.Loaders[i] }
+	switch cs.Top {
+	case "single":
+		if has(0) {
+			idx = append(idx, 0)
+		}
+	case "dep":
+		for i := range cs.Mods {
+			if has(i) {
+				idx = append(idx, i)
+			}
+		}
+	case "runtime":
+		// ioutil.ReadDir order of the module path
+		for _, name := range cr.ModOrder {
+			for i := range cs.Mods {
+				if cs.Mods[i].Dir == name && has(i) {
+					idx = append(idx, i)
+				}
+			}
+		}
+	}
+	return idx
+}
+
+func gContent(f *FileSpec, unreadable bool) (content string, marker int, defline int) {
+	c := f.Content
+	if c == nil {
+		return "CNoDef", 0, 1
+	}
+	marker = c.Marker
+	defline = c.Pad + 1
+	if unreadable {
+		return "CUnreadable", marker, defline
+	}
+	strs := func(l []string) string {
+		var es []string
+		for _, s := range l {
+			es = append(es, lib.GStr(s))
+		}
+		return lib.GList(es, "str")
+	}
+	switch c.Class {
+	case "good":
+		return fmt.Sprintf("(CGood %s %s)", lib.GStr(c.Declared), strs(c.Refs)), marker, defline
+	case "anon":
+		return fmt.Sprintf("(CAnon %s)", strs(c.Refs)), marker, defline
+	case "typeset":
+		return fmt.Sprintf("(CTypeSet %s %s)", lib.GStr(c.Declared), strs(c.Members)), marker, defline
+	case "malformed":
+		return fmt.Sprintf("(CMalformed %s)", lib.GN(uint64(malformedLine(c)))), marker, defline
+	case "nodef":
+		switch c.Tmpl % nNoDef {
+		case 0, 5:
+			defline = 1 // no token at all
+		}
+		return "CNoDef", marker, defline
+	}
+	panic("unknown content class " + c.Class)
+}
+
+func isUnreadable(f *FileSpec, mode000 bool) bool {
+	switch f.Kind {
+	case "dangling", "linkdir":
+		return true
+	case "mode000":
+		return mode000
+	}
+	return false
+}
+
+func gFile(rel string, isDir bool, f *FileSpec, mode000 bool) string {
+	content, marker, defline := "CNoDef", 0, 1
+	if f != nil && !isDir {
+		content, marker, defline = gContent(f, isUnreadable(f, mode000))
+	}
+	return fmt.Sprintf("{| f_rel := %s; f_dir := %s; f_content := %s; f_marker := %s; f_defline := %s |}",
+		lib.GStr(rel), lib.GBool(isDir), content, lib.GN(uint64(marker)), lib.GN(uint64(defline)))
+}
+
+func gMod(m *ModSpec, walk []WalkEntry, mode000 bool) string {
+	by := map[string]*FileSpec{}
+	for i := range m.Files {
+		by[m.Files[i].Rel] = &m.Files[i]
+	}
+	var fs []string
+	for _, w := range walk {
+		fs = append(fs, gFile(w.Rel, w.IsDir, by[w.Rel], mode000))
+	}
+	return fmt.Sprintf("{| m_name := %s; m_walk := %s |}", lib.GStr(m.Name), lib.GList(fs, "file"))
+}
+
+// fileRef: a path relative to the case root ("<dir>/<rel>") as (index of the model module, rel)
+func fileRef(cs *Case, mm []int, p string) (int, string, bool) {
+	i := strings.Index(p, "/")
+	if i < 0 {
+		return 0, "", false
+	}
+	dir, rel := p[:i], p[i+1:]
+	for k, mi := range mm {
+		if cs.Mods[mi].Dir == dir {
+			return k, rel, true
+		}
+	}
+	return 0, "", false
+}
+
+func gOut(cs *Case, mm []int, o *Outcome) string {
+	switch o.Kind {
+	case "found":
+		return fmt.Sprintf("(OFound {| tv_name := %s; tv_marker := %s; tv_ts := %s |})", lib.GStr(lowerASCII(o.Name)), lib.GN(uint64(o.Marker)), lib.GBool(o.IsTS))
+	case "notfound":
+		return "ONotFound"
+	case "bool":
+		return "(OBool " + lib.GBool(o.Bool) + ")"
+	case "list":
+		var es []string
+		for _, s := range o.List {
+			es = append(es, lib.GStr(s))
+		}
+		return "(OList " + lib.GList(es, "str") + ")"
+	case "str":
+		return "(OStr " + lib.GStr(o.Str) + ")"
+	case "panic":
+		return "OFault"
+	case "reported":
+		loc := func() (string, bool) {
+			if k, rel, ok := fileRef(cs, mm, o.LocFile); ok {
+				return fmt.Sprintf("%s %s", lib.GNat(k), lib.GStr(rel)), true
+			}
+			return "", false
+		}
+		arg := func() (string, bool) {
+			for _, a := range o.ArgFiles {
+				if k, rel, ok := fileRef(cs, mm, a); ok {
+					return fmt.Sprintf("%s %s", lib.GNat(k), lib.GStr(rel)), true
+				}
+			}
+			return "", false
+		}
+		line := lib.GN(uint64(o.LocLine))
+		switch o.Code {
+		case "PCORE_INVALID_CHARACTERS_IN_NAME":
+			return "(OErr EInvalidName)"
+		case "PARSE_ERROR":
+			if l, ok := loc(); ok {
+				return fmt.Sprintf("(OErr (EParse %s %s))", l, line)
+			}
+		case "PCORE_UNABLE_TO_READ_FILE":
+			if a, ok := arg(); ok {
+				return fmt.Sprintf("(OErr (EUnreadable %s))", a)
+			}
+		case "PCORE_WRONG_DEFINITION":
+			if l, ok := loc(); ok {
+				return fmt.Sprintf("(OErr (EWrongDef %s %s))", l, line)
+			}
+		case "PCORE_NO_DEFINITION":
+			if l, ok := loc(); ok {
+				return fmt.Sprintf("(OErr (ENoDef %s %s))", l, line)
+			}
+		case "PCORE_NOT_EXPECTED_TYPESET":
+			if a, ok := arg(); ok {
+				return fmt.Sprintf("(OErr (ENotTypeset %s))", a)
+			}
+		case "PCORE_ATTEMPT_TO_REDEFINE":
+			return "(OErr ERedefine)"
+		case "PCORE_ATTEMPT_TO_REDEFINE_TYPE":
+			return "(OErr ERedefineType)"
+		}
+		// an error class the model does not have: never equal to a model outcome
+		return "OFuel"
+	}
+	return "OFuel"
+}
+
+func gallinaCase(cs *Case, cr *CaseResult, mode000 bool) string {
+	mm := modelMods(cs, cr)
+	pos := map[int]int{} // cs.Mods index -> model index
+	var mods []string
+	for k, mi := range mm {
+		pos[mi] = k
+		mods = append(mods, gMod(&cs.Mods[mi], cr.Walks[mi], mode000))
+	}
+	top := "TopDep"
+	if cs.Top == "single" {
+		top = "TopSingle"
+	}
+	var sh []string
+	keys := make([]string, 0, len(cr.Shadow))
+	for k := range cr.Shadow {
+		keys = append(keys, k)
+	}
+	sort.Strings(keys)
+	for _, k := range keys {
+		sh = append(sh, lib.GPair(lib.GStr(k), lib.GStr(cr.Shadow[k])))
+	}
+	var ops, outs []string
+	for i, op := range cs.Ops {
+		o := &cr.Outcomes[i]
+		var g string
+		switch op.Op {
+		case "load":
+			g = fmt.Sprintf("OpLoad %s %s", lib.GZ(int64(op.Ctx)), lib.GStr(op.Name))
+		default:
+			k, ok := pos[op.Mod]
+			if !ok {
+				continue // no loader for that module: nothing to model (the operation has no effect)
+			}
+			switch op.Op {
+			case "has":
+				g = fmt.Sprintf("OpHas %s %s", lib.GNat(k), lib.GStr(op.Name))
+			case "discover":
+				g = fmt.Sprintf("OpDiscover %s", lib.GNat(k))
+			case "effpath":
+				g = fmt.Sprintf("OpEffPath %s %s", lib.GNat(k), lib.GStr(op.Name))
+			case "typednames":
+				g = fmt.Sprintf("OpTypedNames %s %s", lib.GNat(k), lib.GStr(op.Name))
+			}
+		}
+		var reads []string
+		for _, p := range o.Reads {
+			if k, rel, ok := fileRef(cs, mm, p); ok {
+				reads = append(reads, lib.GPair(lib.GNat(k), lib.GStr(rel)))
+			} else {
+				reads = append(reads, lib.GPair(lib.GNat(999), lib.GStr(p)))
+			}
+		}
+		ops = append(ops, g)
+		outs = append(outs, lib.GPair(gOut(cs, mm, o), lib.GList(reads, "nat * str")))
+	}
+	return fmt.Sprintf("{| cc_world := {| w_top := %s; w_mods := %s; w_shadow := %s |};\n     cc_ops := %s;\n     cc_outs := %s |}",
+		top, lib.GList(mods, "modl"), lib.GList(sh, "str * str"), lib.GList(ops, "op"), lib.GList(outs, "out * list (nat * str)"))
+}
